@@ -38,11 +38,12 @@ Dims == [
   pool     |-> <<"A", "B", "AB", "empty", "nil", "AI">>,     \* AI: root A and its platform CA certificate
   rotVia   |-> <<"pool", "files", "inline", "mixed", "fileEmpty", "inlineNonPem">>,   \* how the caller builds the pool: directly, or with
                                                \* RootOfTrustToOptions from bundle files / inline PEM / both / an empty file / a non-PEM string
-  leafRole |-> <<"pck", "wrongCN", "pckByRoot", "caAsLeaf", "tcbSignByRoot">>,
+  leafRole |-> <<"pck", "wrongCN", "pckByRoot", "caAsLeaf", "tcbSignByRoot", "cnUpper", "cnSpace", "cnKelvin">>,   \* cn*: issued like a PCK leaf, named almost like one (case, trailing space, a Unicode look-alike letter)
   leafId   |-> <<"l1", "l2">>,                 \* which of the platform's two PCK leaves the chain carries (both honest)
   msgWide  |-> <<"none", "version", "akType", "certType", "pckCertType", "authSize", "isvProdId", "isvSvn", "isvSvnPlus65536">>,
                \* a QuoteV4 *message* whose numeric field exceeds the width the wire format gives it (the low bits are the genuine value): not a quote
   leafExtCritical |-> <<"no", "yes">>,      \* the PCK leaf marks its SGX extension critical (Intel does not): x509 path building refuses an unhandled critical extension
+  sgxValues |-> <<"random", "derLike">>,    \* PPID / PCE-ID / FMSPC / CPUSVN bytes that happen to read as DER of a shorter octet string
   sgxOrder |-> <<"canon", "reversed", "interleaved">>,   \* order in which the PCK leaf's SGX extension lists its elements (each is found by its OID)
   sigShape |-> <<"any", "quoteshortR", "quoteshortS", "qeReportshortR", "qeReportshortS", "tcbInfoshortR", "tcbInfoshortS",
                 "enclaveIdentityshortR", "enclaveIdentityshortS">>,   \* a raw signature scalar with leading zero bytes (its DER INTEGER is shorter): still a valid signature
@@ -54,34 +55,35 @@ Dims == [
   pemType  |-> <<"cert", "other">>,
   interCN  |-> <<"platform", "processor">>,
   \* collateral authenticity (C03), one group per document
-  tcbSigner   |-> <<"ok", "pkiB", "wrongRole", "rootDirect", "selfSigned", "lookalikeSameSerial", "pkiBSameSki">>,
+  tcbSigner   |-> <<"ok", "pkiB", "wrongRole", "rootDirect", "selfSigned", "lookalikeSameSerial", "pkiBSameSki", "ekuOther">>,
   tcbOver     |-> <<"member", "wholeBody", "reencoded">>,
   tcbAlter    |-> <<"none", "memberBit", "sigBit", "sigMissing", "sigNull", "sigEmpty">>,
   tcbExtra    |-> <<"none", "dupBefore", "dupAfter", "caseBefore", "caseAfter", "foldAfter">>,
-  tcbHdr      |-> <<"ok", "missing", "duplicated", "empty", "swapped", "threeCerts", "bitflip">>,   \* bitflip: one bit of the DER of a header certificate
+  tcbHdr      |-> <<"ok", "missing", "duplicated", "empty", "swapped", "threeCerts", "bitflip", "caseDuplicate">>,   \* bitflip: one bit of the DER of a header certificate
   tcbMeta     |-> <<"ok", "wrongId", "wrongVersion", "noLevels", "levelsOmitted", "memberMissing">>,
-  qeSignerDoc |-> <<"ok", "pkiB", "wrongRole", "rootDirect", "selfSigned", "lookalikeSameSerial", "pkiBSameSki">>,
+  qeSignerDoc |-> <<"ok", "pkiB", "wrongRole", "rootDirect", "selfSigned", "lookalikeSameSerial", "pkiBSameSki", "ekuOther">>,
   sharedSigner |-> <<"distinct", "shared", "sameKey">>,   \* sameKey: the signing certificate was re-issued (same key and subject, another serial), one issue per document;   \* one signing certificate (byte-identical issuer chains) for both documents, as Intel does
   qeOver      |-> <<"member", "wholeBody", "reencoded">>,
   qeAlter     |-> <<"none", "memberBit", "sigBit", "sigMissing", "sigNull", "sigEmpty">>,
   qeExtra     |-> <<"none", "dupBefore", "dupAfter", "caseBefore", "caseAfter", "foldAfter">>,
-  qeHdr       |-> <<"ok", "missing", "duplicated", "empty", "swapped", "threeCerts", "bitflip">>,
+  qeHdr       |-> <<"ok", "missing", "duplicated", "empty", "swapped", "threeCerts", "bitflip", "caseDuplicate">>,
   qeMeta      |-> <<"ok", "wrongId", "wrongVersion", "noLevels", "levelsOmitted", "memberMissing">>,
   \* signed content (C04, C07; refined in TcbLevels.tla)
   tcbContent |-> <<"ok", "laterMatch", "laterMatchTdx", "laterMatchPce", "fmspcUpper", "fmspc", "pceid", "mrsigner", "attrs",
                    "outOfDate", "revoked", "swHardening", "configNeeded", "noLevel",
                    "attrsShort", "attrsEmpty", "attrsLong", "mrsignerShort">>,     \* lengths: a mask / value that does not span the quote's field
-  modBranch  |-> <<"none", "modOk", "modOutOfDate", "modMissing", "modNoLevel", "modOmitted", "modDecoyIds">>,
+  modBranch  |-> <<"none", "modOk", "modOutOfDate", "modMissing", "modNoLevel", "modOmitted", "modDecoyIds", "modDupId">>,
   qeContent  |-> <<"ok", "laterMatch", "maskedDiff", "maskZero", "valueOutsideMask", "misc", "miscHigh", "attrs", "mrsigner", "prodid",
                    "outOfDate", "revoked", "swHardening", "noLevel",
                    "attrsShort", "attrsEmpty", "attrsLong", "miscShort", "mrsignerShort", "attrsBothHalvesLE", "attrsBothHalvesBE">>,
   \* revocation (C05)
-  pckCrlRev     |-> <<"none", "nearMiss", "many", "leaf", "leafFirst", "leafAmongMany">>,
-  rootCrlRev    |-> <<"none", "nearMiss", "inter", "tcbSigner", "qeSigner">>,
+  pckCrlRev     |-> <<"none", "nearMiss", "many", "leaf", "leafFirst", "leafAmongMany", "interSerial">>,   \* interSerial: lists the number the platform CA certificate carries (harmless)
+  rootCrlRev    |-> <<"none", "nearMiss", "inter", "tcbSigner", "qeSigner", "tcbSignerReason8", "qeSignerReason8", "leafSerial">>,
+                    \* *Reason8: the entry states reason removeFromCRL (a listed serial is revoked whatever the entry says); leafSerial: harmless coincidence
   pckCrlSigner  |-> <<"inter", "root", "rootNamedInter", "foreignNamed", "otherPki", "foreignWithHeader">>,
   rootCrlSigner |-> <<"root", "inter", "interNamedRoot", "foreignNamed">>,
   pckCrlFetch   |-> <<"ok", "error", "garbage", "otherIssuer", "hdrMissing">>,
-  rootCrlDps    |-> <<"ok", "errorThenOk", "garbageThenOk", "none", "error", "garbage", "errorError">>,
+  rootCrlDps    |-> <<"ok", "errorThenOk", "garbageThenOk", "none", "error", "garbage", "errorError", "malformedThenOk">>,
   \* time (C06): artefact_position; the governing clock is on the named side of the artefact's
   \* expiry (or 1 s before its notBefore), the other four clocks on the opposite side.
   time |-> <<"none", "spread",          \* spread: five pairwise distinct clocks, all inside every validity window (honest)
@@ -138,7 +140,7 @@ Home(w)  == IF w.src = "intel" THEN "I" ELSE w.leafPki      \* the PKI that issu
 InPool(p, w) == \/ (p = "A" /\ w.pool \in {"A", "AB", "AI"})
                 \/ (p = "B" /\ w.pool \in {"B", "AB"})
                 \/ (p = "I" /\ w.pool = "nil")             \* no pool given: the embedded Intel root, and only it
-IssuedByInter(w) == w.leafRole \in {"pck", "wrongCN"}
+IssuedByInter(w) == w.leafRole \in {"pck", "wrongCN", "cnUpper", "cnSpace", "cnKelvin"}
 
 \* time dimension
 TimeArt(w) == IF w.time \in {"none", "spread"} THEN "none"
@@ -167,9 +169,9 @@ Needs(o, a) == CASE a \in {"leaf","inter","root"} -> TRUE
                  [] OTHER -> o.gc /\ o.cr
 
 LeafListed(w) == w.pckCrlRev \in {"leaf", "leafFirst", "leafAmongMany"}
-DpsFirstSuccess(w) == w.rootCrlDps \in {"ok", "errorThenOk", "garbageThenOk"}
+DpsFirstSuccess(w) == w.rootCrlDps \in {"ok", "errorThenOk", "garbageThenOk", "malformedThenOk"}
 DpSeq(w) == CASE w.rootCrlDps = "ok" -> <<"ok">>
-              [] w.rootCrlDps = "errorThenOk" -> <<"error", "ok">>
+              [] w.rootCrlDps \in {"errorThenOk", "malformedThenOk"} -> <<"error", "ok">>
               [] w.rootCrlDps = "garbageThenOk" -> <<"garbage", "ok">>
               [] w.rootCrlDps = "none" -> <<>>
               [] w.rootCrlDps = "error" -> <<"error">>
@@ -199,7 +201,7 @@ DocOk(w, s, ov, al, h, m) ==
              /\ \/ (w[s] = "ok" /\ InPool(Home(w), w))                                   \* signer certified by a trusted root for that role:
                 \/ (w[s] \in {"pkiB", "pkiBSameSki"} /\ InPool(IF Home(w) = "A" THEN "B" ELSE "A", w))      \* the look-alike PKI's signer counts iff that PKI is trusted too
              /\ w[ov] = "member" /\ w[al] = "none"
-             /\ w[h] \in {"ok", "duplicated"}
+             /\ w[h] \in {"ok", "duplicated", "caseDuplicate"}
              /\ w[m] = "ok"
 N03(w, o) == o.gc => /\ DocOk(w, "tcbSigner", "tcbOver", "tcbAlter", "tcbHdr", "tcbMeta")
                      /\ DocOk(w, "qeSignerDoc", "qeOver", "qeAlter", "qeHdr", "qeMeta")
@@ -215,7 +217,7 @@ N05(w, o) == o.cr => /\ o.gc
                      /\ w.pckCrlFetch \in {"ok", "hdrMissing"} /\ DpsFirstSuccess(w)
                      /\ w.pckCrlSigner = "inter" /\ w.rootCrlSigner = "root"
                      /\ ~LeafListed(w)
-                     /\ w.rootCrlRev \notin {"inter", "tcbSigner", "qeSigner"}
+                     /\ w.rootCrlRev \in {"none", "nearMiss", "leafSerial"}
 
 \* C06: nothing that the option level needs is outside its validity at its own clock
 Arts == DOMAIN Gov
@@ -232,11 +234,11 @@ Honest(w, o) ==
   /\ ~(o.cr /\ ~o.gc)
   /\ o.gc => /\ \A d \in {"tcbSigner", "qeSignerDoc"} : w[d] = "ok"
              /\ w.tcbOver = "member" /\ w.qeOver = "member" /\ w.tcbAlter = "none" /\ w.qeAlter = "none"
-             /\ w.tcbExtra = "none" /\ w.qeExtra = "none" /\ w.tcbHdr = "ok" /\ w.qeHdr = "ok"
+             /\ w.tcbExtra = "none" /\ w.qeExtra = "none" /\ w.tcbHdr \in {"ok", "caseDuplicate"} /\ w.qeHdr \in {"ok", "caseDuplicate"}
              /\ w.tcbMeta = "ok" /\ w.qeMeta = "ok" /\ GoodTcb(w) /\ GoodQe(w)
   /\ o.cr => /\ w.pckCrlFetch = "ok" /\ DpsFirstSuccess(w)
              /\ w.pckCrlSigner = "inter" /\ w.rootCrlSigner = "root"
-             /\ ~LeafListed(w) /\ w.rootCrlRev \in {"none", "nearMiss"}
+             /\ ~LeafListed(w) /\ w.rootCrlRev \in {"none", "nearMiss", "leafSerial"}
   /\ \A a \in Arts : Needs(o, a) => ~Expired(w, a) /\ ~NotYet(w, a)
 
 \* C12: which requests an option setting permits (fs = sequence of [kind, ok] records)
@@ -256,18 +258,18 @@ Gating(o, fs) == /\ ~o.gc => fs = <<>>
 Stages == <<"rot", "check", "extract", "ca", "fetchTcb", "fetchQe", "fetchPckCrl", "fetchRootCrl",
             "chain", "collateral", "tcbinfo", "qeidentity", "quote">>
 
-HdrParses(h) == h \in {"ok", "swapped"}      \* headerToIssuerChain: exactly one value, two PEM blocks, nothing after
+HdrParses(h) == h \in {"ok", "swapped", "caseDuplicate"}      \* headerToIssuerChain: exactly one value, two PEM blocks, nothing after
 \* verifyResponse: issuer chain shape + x509 path + body signature (+ CRL section)
 \* (the unsigned sibling of the *Extra dimensions carries the honest content but is never byte-identical to the signed member)
 ResponseOk(w, o, s, ov, al, ex, h, revoked) ==
-  /\ w[h] = "ok"                               \* swapped: the "root" is the signer: name check fails
+  /\ w[h] \in {"ok", "caseDuplicate"}          \* swapped: the "root" is the signer: name check fails; caseDuplicate: only the canonical spelling is read
   /\ w[s] \in {"ok", "pkiB", "pkiBSameSki"}    \* wrongRole/rootDirect: signer CN; selfSigned: not issued by the root
   /\ (w[s] = "ok" => InPool(Home(w), w))
   /\ (w[s] \in {"pkiB", "pkiBSameSki"} => InPool(IF Home(w) = "A" THEN "B" ELSE "A", w))
   /\ w[ov] = "member" /\ w[al] = "none"
   /\ w[ex] # "dupAfter"                        \* the exact-key member that is signature-checked is then the unsigned sibling
   /\ (o.cr => /\ w.rootCrlSigner = "root" /\ (w.src = "gen" => w.rootPki = Home(w)) /\ w[s] = "ok"
-              /\ w.rootCrlRev # revoked)
+              /\ w.rootCrlRev \notin {revoked, revoked \o "Reason8"})
 
 StageResult(st, w, o) ==
   CASE st = "rot" ->                                         \* RootOfTrustToOptions refuses bundles without certificates
